@@ -12,9 +12,14 @@
 (*       chunk of look-ahead);                                             *)
 (*   (c) LINES strip stitching, (d) the resolution rule,                   *)
 (*   (e) the iTerm2 inline-image clauses incl. the read-from-file gate     *)
-(*       and the JPEG rule.                                                *)
+(*       and the JPEG rule;                                                *)
+(*   (f) base64 STREAMS: well-formedness of a WHOLE payload (padding only  *)
+(*       at the very end), the encoder as a step machine (in one piece /   *)
+(*       block by block) and the payload SIZE CLASSES (around 2^16, 2^20,  *)
+(*       3*2^k, several MiB) over which the property quantifies.           *)
 (*                                                                         *)
 (* Users: MC_Gfx (producer (x) receiver, every payload length),            *)
+(*        MC_GfxB64 (encoder (x) stream clauses, every size class),        *)
 (*        MC_GfxRender (render loops of KittyImage / ITerm2Image           *)
 (*        transcribed, composed with the judge, small geometry),           *)
 (*        Trace_Gfx (command sequences recorded from REAL renders).        *)
@@ -37,6 +42,67 @@ Max(a, b) == IF a > b THEN a ELSE b
 B64Len(n) == 4 * ((n + 2) \div 3)          \* padded base64 length of n bytes
 B64Pad(n) == (3 - (n % 3)) % 3             \* number of '=' characters
 DecodedLen(b64len, pad) == 3 * (b64len \div 4) - pad
+
+(***************************************************************************)
+(* (f) base64 STREAMS                                                      *)
+(*                                                                         *)
+(* A payload is ONE base64 string: judged on the WHOLE payload of a        *)
+(* transmission (kitty: all chunks concatenated; iTerm2: the text after    *)
+(* the colon), as the receiver sees it:                                    *)
+(*   len   number of characters                                            *)
+(*   pad   number of TRAILING '=' characters                               *)
+(*   pad1  offset (0-based) of the FIRST '=' character, -1 if there is none*)
+(* '=' may only occur as the last one or two characters.  A stream that    *)
+(* carries '=' earlier is a concatenation of separately padded pieces:     *)
+(* strict decoders reject it, lenient ones stop at the first padding and   *)
+(* obtain fewer bytes than size= / s*v*bpp announce.                       *)
+(***************************************************************************)
+B64StreamClause(len, pad, pad1) ==
+  IF pad1 # -1 /\ pad1 # len - pad
+    THEN "base64-padding: '=' occurs before the end of the payload (separately padded pieces, not ONE base64 string)"
+  ELSE IF len % 4 # 0 \/ pad \notin 0..2 \/ (pad1 = -1) # (pad = 0)
+    THEN "base64: payload is not well-formed padded base64"
+  ELSE "ok"
+
+(* The ENCODER as a step machine over n payload bytes.  B = 0: the payload *)
+(* is encoded in one piece (standard_b64encode(stream.read())); B > 0: it  *)
+(* is read and encoded B bytes at a time until a read returns nothing      *)
+(* (iter(partial(stream.read, B), b"")), the pieces are concatenated.      *)
+(* Only lengths and padding positions are modelled.  Block-wise encoding   *)
+(* is a CORRECT alternative iff B is a multiple of 3 (no piece but the     *)
+(* last is padded); the clauses accept it then and reject it otherwise.    *)
+EInit(n) == [n |-> n, pos |-> 0, len |-> 0, pad |-> 0, pad1 |-> -1, nblk |-> 0, done |-> FALSE]
+ERead(s, B) == IF B = 0 THEN s.n - s.pos ELSE Min(B, s.n - s.pos)
+EStep(s, B) ==
+  LET r == ERead(s, B)
+      l == B64Len(r)
+      p == B64Pad(r)
+  IN IF B # 0 /\ r = 0 THEN [s EXCEPT !.done = TRUE]
+     ELSE [s EXCEPT !.pos = @ + r, !.len = @ + l, !.pad = p,
+                    !.pad1 = (IF @ = -1 /\ p > 0 THEN s.len + l - p ELSE @),
+                    !.nblk = @ + 1, !.done = (B = 0)]
+RECURSIVE Encode(_, _)
+Encode(s, B) == IF s.done THEN s ELSE Encode(EStep(s, B), B)
+\* the stream of n bytes encoded with block size B: [len, pad, pad1, ...]
+Stream(n, B) == Encode(EInit(n), B)
+
+(* Payload SIZE CLASSES.  The property quantifies over every source image; *)
+(* the decoded payload length n ranges over all magnitudes, in particular  *)
+(* across the sizes at which an implementation may split its work: 64 KiB, *)
+(* 1 MiB (and their multiples +- 2: every residue mod 3), 3*2^k +- 1, and  *)
+(* several MiB.                                                            *)
+Pow16 == 65536
+Pow20 == 1048576
+PayloadClass(n) ==
+  IF n < 0 THEN "none"
+  ELSE IF n <= Pow16 THEN "<=64KiB"
+  ELSE IF n <= Pow20 THEN "64KiB..1MiB"
+  ELSE ">1MiB"
+SizeGrid ==
+  (0..48)
+  \cup {k * P + d : k \in 1..3, P \in {Pow16, Pow20}, d \in (0 - 2)..2}
+  \cup {3 * Q + d : Q \in {16384, 262144}, d \in (0 - 1)..1}
+  \cup {2 * Pow20 * k + 1 : k \in {1, 2, 4}}
 
 (***************************************************************************)
 (* (a) RECEIVER                                                            *)
@@ -154,7 +220,8 @@ KittyDoneClause(h, k, ctl, tot, e, first) ==
   ELSE IF ctl.f \notin {24, 32} THEN "format-unknown: f is neither 24 nor 32"
   ELSE IF ctl.f # ExpFormat(h) THEN "format: pixel format does not match the alpha setting / source mode"
   ELSE IF e.tb64 # tot THEN "reassembled-length: the chunks do not add up to the decoded payload"
-  ELSE IF tot % 4 # 0 \/ e.pad \notin 0..2 \/ e.dlen # DecodedLen(tot, e.pad)
+  ELSE IF B64StreamClause(tot, e.pad, e.pad1) # "ok" THEN B64StreamClause(tot, e.pad, e.pad1)
+  ELSE IF e.dlen # DecodedLen(tot, e.pad)
     THEN "base64: payload is not well-formed padded base64"
   ELSE IF ctl.o \notin {"", "z"} THEN "compression-flag: unknown o value"
   ELSE IF (ctl.o = "z") # (h.compress > 0) THEN "compression-flag: o=z iff compressed"
@@ -294,8 +361,9 @@ ITermClause(h, k, e, first) ==
     THEN "keys: size / width / height missing"
   ELSE IF e.inline # 1 THEN "inline: inline=1 missing"
   ELSE IF e.par # 0 THEN "aspect: preserveAspectRatio=0 missing"
-  ELSE IF ~e.b64ok \/ e.tb64 # e.b64len \/ e.b64len % 4 # 0 \/ e.pad \notin 0..2
-          \/ e.dlen # DecodedLen(e.b64len, e.pad)
+  ELSE IF e.tb64 # e.b64len THEN "base64: payload is not well-formed padded base64"
+  ELSE IF B64StreamClause(e.b64len, e.pad, e.pad1) # "ok" THEN B64StreamClause(e.b64len, e.pad, e.pad1)
+  ELSE IF ~e.b64ok \/ e.dlen # DecodedLen(e.b64len, e.pad)
     THEN "base64: payload is not well-formed padded base64"
   ELSE IF e.size # e.dlen THEN "size-key: size= differs from the decoded payload length"
   ELSE IF e.wcells # h.rw THEN "width-key: width is not the rendered width in cells"
